@@ -32,7 +32,10 @@ def scenario(rng, tier):
             outcomes = []
             for _ in range(k):
                 c = rng.below(10)
-                outcomes.append("close" if c == 0 else str(rng.choice(REJECTED)))
+                outcomes.append("close" if c < 2 else str(rng.choice(REJECTED)))
+            if j == 0:
+                # always: a connection that is accepted and closed without an answer counts as a failure
+                outcomes.insert(0, "close")
             outcomes.append(str(rng.choice(ACCEPTED)))
             maxlen = max(maxlen, len(outcomes))
             attrs = {}
